@@ -73,6 +73,8 @@ def _res(text):
         return ''
     if h == 2:
         return 0
+    if h == 3:
+        return text + '#' * 9000       # larger than one write buffer
     return text
 
 
@@ -167,6 +169,17 @@ DEFAULTS = {'f2': ('y', 2), 'f6': ('y', 2), 'f4': ('k', 1), 'f7': ('y', 7.26), '
 VARIADIC = ('f3', 'f6')
 
 
+def sibling_of(fn):
+    """another function object made from the same code (as a factory or a lambda in a loop would) but
+    with different default values: unrelated process state as far as `fn`'s keys are concerned"""
+    import types
+    g = types.FunctionType(fn.__code__, fn.__globals__, fn.__name__,
+                           tuple(2 if d != 2 else 1 for d in (fn.__defaults__ or ())) or None, fn.__closure__)
+    if fn.__kwdefaults__:
+        g.__kwdefaults__ = dict((k, 2 if v != 2 else 1) for k, v in fn.__kwdefaults__.items())
+    return g
+
+
 # --------------------------------------------------------------------------
 # configuration space
 
@@ -220,6 +233,10 @@ def gen_config(rng, prop, tier):
         maxsize = rng.choice([0, None])
         if prop != 'C05':
             maxsize_pos = False       # the positional spelling of 0/None is C05's business
+    wide = prop in ('C01', 'C02', 'C05', 'C06', 'C07', 'C15') and algo in ('lfu', 'lru', 'mru', 'rr') and \
+        maxsize not in (0, None) and rng.chance(0.05)
+    if wide:
+        maxsize = rng.choice([30, 40])      # LFU evicts max(2, maxsize//10) entries: >2 only from 30 up
     purge = rng.chance(0.3) and prop != 'C06'
     fn = rng.weighted([(3, 'f1'), (4, 'f2'), (2, 'f3'), (2, 'f4'), (2, 'f5'), (2, 'f6'), (1, 'f7'), (1, 'f8'), (1, 'f9')])
     # backend
@@ -261,7 +278,7 @@ def gen_config(rng, prop, tier):
     cfg = {'module': module, 'algo': algo, 'maxsize': maxsize, 'maxsize_pos': maxsize_pos,
            'purge': purge, 'keymap': km, 'fn': fn,
            'backend': B.config(label, 'm0') if label else None, 'direct': direct,
-           'ignore': None, 'tol': None, 'deep': False}
+           'ignore': None, 'tol': None, 'deep': False, 'wide': wide}
     if prop == 'C18' and rng.chance(0.35) and not (km['kind'] == 'pickle' and km['arg'] == 'json') \
        and not (label in ('file-src', 'dir-src') and km['kind'] == 'raw'):
         if fn in ('f2', 'f6', 'f7') and rng.chance(0.5):
@@ -279,6 +296,8 @@ def gen_config(rng, prop, tier):
 
 
 ARG_POOL = [0, 1, 2, 3, 4, 5, 6, 'a', 'b', 1.5, 2.25, None]
+# rarer argument kinds, mixed into some runs: empty and longer strings, a negative and a big int, a tuple, bytes
+ARG_EXTRA = ['', 'a longer string, with "quotes"', -1, 10 ** 20, {'$t': [1, 2]}, {'$b': '00ff'}]
 KW_NAMES = ['p', 'q']
 
 
@@ -386,22 +405,22 @@ BAD_ARGS = [[1, 2], {'$d': [['a', 1]]}, {'$s': [1, 2]}, {'$o': 'badrepr'}, {'$o'
             [[1], {'$o': 'unpicklable'}]]
 
 OPMIX = {
-    'C01': [(60, 'call'), (4, 'load'), (3, 'load_k'), (4, 'dump'), (2, 'dump_k'), (3, 'clear'),
+    'C01': [(60, 'call'), (2, 'sibling_call'), (5, 'peer_call'), (4, 'load'), (3, 'load_k'), (4, 'dump'), (2, 'dump_k'), (3, 'clear'),
             (1, 'clear_keep'), (3, 'off'), (3, 'on'), (2, 'swap'), (4, 'restart'), (3, 'restart_dump'),
             (3, 'advance')],
-    'C02': [(60, 'call'), (3, 'load'), (2, 'load_k'), (5, 'dump'), (2, 'dump_k'), (2, 'clear'),
+    'C02': [(60, 'call'), (2, 'sibling_call'), (6, 'peer_call'), (3, 'load'), (2, 'load_k'), (5, 'dump'), (2, 'dump_k'), (2, 'clear'),
             (2, 'off'), (2, 'on'), (3, 'restart'), (6, 'restart_dump'), (2, 'advance')],
     'C05': [(55, 'call'), (10, 'load'), (3, 'load_k'), (4, 'dump'), (3, 'clear'), (3, 'off'), (3, 'on'),
             (2, 'swap'), (3, 'restart'), (3, 'restart_dump'), (2, 'clone')],
     'C06': [(100, 'call'), (6, 'rcall')],
-    'C07': [(70, 'call'), (3, 'load'), (3, 'load_k'), (4, 'dump'), (2, 'dump_k'), (2, 'clear'),
+    'C07': [(70, 'call'), (4, 'peer_call'), (3, 'load'), (3, 'load_k'), (4, 'dump'), (2, 'dump_k'), (2, 'clear'),
             (2, 'off'), (3, 'on'), (2, 'restart_dump'), (1, 'swap')],
-    'C15': [(60, 'call'), (4, 'load'), (2, 'load_k'), (4, 'dump'), (2, 'dump_k'), (4, 'clear'),
+    'C15': [(60, 'call'), (3, 'peer_call'), (4, 'load'), (2, 'load_k'), (4, 'dump'), (2, 'dump_k'), (4, 'clear'),
             (3, 'clear_keep'), (3, 'off'), (3, 'on'), (2, 'swap'), (3, 'restart'), (3, 'restart_dump'),
             (3, 'clone'), (5, 'rcall'), (3, 'bad')],
     'C16': [(55, 'call'), (14, 'rcall'), (8, 'bad'), (3, 'load'), (3, 'dump'), (2, 'clear'), (2, 'off'),
             (2, 'on'), (2, 'restart_dump')],
-    'C18': [(50, 'call'), (14, 'key'), (14, 'lookup'), (3, 'rcall'), (3, 'load'), (3, 'dump'),
+    'C18': [(50, 'call'), (2, 'sibling_call'), (14, 'key'), (14, 'lookup'), (3, 'rcall'), (3, 'load'), (3, 'dump'),
             (2, 'clear'), (2, 'off'), (2, 'on'), (2, 'restart_dump')],
     'C20': [(60, 'call'), (3, 'load'), (3, 'dump'), (2, 'clear'), (1, 'clear_keep'), (2, 'off'), (2, 'on'),
             (3, 'rcall')],
@@ -413,14 +432,20 @@ def generate(rng, prop, tier):
     fn = cfg['fn']
     km = cfg['keymap']
     pool = list(ARG_POOL)
-    if km['kind'] == 'pickle' and km['arg'] == 'json':
-        pool = [p for p in pool]          # all JSON-able already
+    if rng.chance(0.3):
+        extra = [dec(e) for e in rng.sample(ARG_EXTRA, rng.randint(1, 3))]
+        if km['kind'] == 'pickle' and km['arg'] == 'json':
+            extra = [e for e in extra if not isinstance(e, (bytes, tuple))]
+        pool = pool + extra
     if cfg.get('tol') is not None:
         # rounded floats must not collide with ints of the pool or with the defaults y=2, k=1
         # (3.04 -> 3.0 == 3 are equal keys for a dict but distinct names for a directory archive)
         pool = [p for p in pool if p not in (3, 4, 1.5, 2.25)] + [3.04, 3.06, 4.249]
     rng.shuffle(pool)
     hot = [logical_call(rng, fn, pool[:6], True) for _ in range(rng.randint(2, 9))]
+    if cfg.get('wide'):
+        # enough distinct calls to overflow a cache of 30-40 entries several times
+        hot = [logical_call(rng, fn, pool, True) for _ in range(rng.randint(45, 80))]
     strict = prop in ('C02', 'C07') and cfg['backend'] is not None and not cfg['direct'] and \
         cfg['backend']['label'] not in ('null',) and rng.chance(0.5)
     mix = list(OPMIX[prop])
@@ -432,9 +457,15 @@ def generate(rng, prop, tier):
                                                       'dump', 'dump_k')] + [(2, 'load'), (2, 'dump')]
     if cfg['module'] != 'safe':
         mix = [(w, k) for (w, k) in mix if k != 'bad']
+    if cfg['backend'] is None or cfg['direct'] or not B.is_persistent(cfg['backend']):
+        mix = [(w, k) for (w, k) in mix if k != 'peer_call']
+    if fn not in DEFAULTS:
+        mix = [(w, k) for (w, k) in mix if k != 'sibling_call']
     n = rng.randint(5, 60)
     if rng.chance(0.08) or (prop == 'C06' and rng.chance(0.35)):
         n = rng.randint(60, 400 if tier == 'thorough' else 200)
+    if cfg.get('wide'):
+        n = rng.randint(150, 400 if tier == 'thorough' else 260)
     ops = []
     recent = []
     burst = 0
@@ -444,8 +475,8 @@ def generate(rng, prop, tier):
             kind, burst = 'call', burst - 1
         elif prop == 'C06' and rng.chance(0.03):
             burst = rng.randint(10, 40)      # hit bursts fill the LRU queue
-        if kind in ('call', 'rcall', 'key', 'lookup'):
-            if recent and rng.chance(0.55 if burst == 0 else 0.95):
+        if kind in ('call', 'rcall', 'key', 'lookup', 'peer_call', 'sibling_call'):
+            if recent and rng.chance((0.55 if not cfg.get('wide') else 0.25) if burst == 0 else 0.95):
                 c = rng.choice(recent[-3:])
             elif rng.chance(0.85):
                 c = rng.choice(hot)
@@ -454,7 +485,7 @@ def generate(rng, prop, tier):
             op = spell(rng, fn, c)
             if kind == 'rcall':
                 op['raises'] = True
-            elif kind in ('key', 'lookup'):
+            elif kind in ('key', 'lookup', 'peer_call', 'sibling_call'):
                 op['op'] = kind
             else:
                 recent.append(c)
@@ -468,6 +499,11 @@ def generate(rng, prop, tier):
             ops.append({'op': 'advance', 'dt': rng.weighted([(5, 0), (3, 1), (1, 3600), (1, -1)])})
         else:
             ops.append({'op': kind})
+    if any(k == 'sibling_call' for (_, k) in mix) and rng.chance(0.15):
+        # the sibling is keyed before the function under test ever is
+        op = spell(rng, fn, rng.choice(hot))
+        op['op'] = 'sibling_call'
+        ops.insert(0, op)
     if prop == 'C20':
         pos = rng.randint(0, len(ops))
         ops.insert(pos, {'op': 'clone'})
@@ -512,6 +548,8 @@ class World(object):
         self.generation = 0
         self.swapped = 0
         self.f = None
+        self.g = None
+        self.sib = None
         self.raised_steps = set()
         self.orig = None       # C20: the function that was pickled
         self.orig_snap = None
@@ -553,6 +591,15 @@ class World(object):
                            % (cfg['algo'], '' if cfg['maxsize_pos'] else 'maxsize=', cfg['maxsize'],
                               type(e).__name__, str(e)[:200]))
         self.generation += 1
+
+    def peer(self):
+        """a second decorated function (own decorator, own in-memory cache, own archive handle) on the
+        same persistent location: 'a second decorator instance sharing the archive'"""
+        if self.g is None:
+            main, gen = self.f, self.generation
+            self.build()
+            self.g, self.f, self.generation = self.f, main, gen
+        return self.g
 
     @property
     def eff_algo(self):
@@ -815,6 +862,8 @@ class Oracle(object):
                                    % (show_op(op), show(V), mv, mk, show(sorted((cnt.get(k, 0), show(k)) for k in cand))))
             if len(V) > 1:
                 self.bump('lfu-multi-victim')
+            if len(V) > 2:
+                self.bump('lfu-batch-over-2')
 
 
 def _hk(k):
@@ -894,6 +943,57 @@ def run_world(case, prop, root, name, skip, fs, clock, probes, faults, log):
             orc.on_call(op, key, keyerr, before, after, outcome, w.evals[n0:])
             trace.append((step, after, outcome[0], outcome[1] if outcome[0] == 'ok' else type(outcome[1]).__name__))
             before = after
+            continue
+        if kind == 'sibling_call':
+            # unrelated activity in the same process: a function sharing fn's code object but with other
+            # defaults is memoized (own default cache) and called; must not influence fn's keys or results
+            if w.sib is None:
+                import klepto
+                w.sib = klepto.inf_cache(keymap=make_keymap(cfg['keymap']))(sibling_of(w.fn))
+            args, kw = _decode_call(op)
+            try:
+                w.sib(*args, **kw)
+            except Exception as e:
+                raise Mismatch('unexpected-exception:' + type(e).__name__, 'sibling function call %s raised %s: %s'
+                               % (show_op(op), type(e).__name__, str(e)[:200]))
+            bump(faults, 'sibling-function-call')
+            continue
+        if kind == 'peer_call':
+            g = w.peer()
+            args, kw = _decode_call(op)
+            bump(faults, 'second-instance-call')
+            try:
+                gkey = g.key(*args, **kw)
+                gc = g.__cache__()
+                gmem = snapshot(gc)
+                garch = snapshot(gc.archive) if gc.archived() else None
+            except Exception as e:
+                raise Mismatch('contents-unreadable', 'second instance: reading cache/archive raised %s: %s'
+                               % (type(e).__name__, str(e)[:200]))
+            n0 = len(w.evals)
+            try:
+                val = g(*args, **kw)
+            except BaseException as e:
+                raise Mismatch('unexpected-exception:' + type(e).__name__, 'second instance: call %s raised %s: %s'
+                               % (show_op(op), type(e).__name__, str(e)[:200]))
+            nev = len(w.evals) - n0
+            if cfg.get('tol') is None and cfg.get('ignore') is None:
+                exp = w.rfn(*args, **kw)
+                if val != exp:
+                    raise Mismatch('wrong-result', 'second instance: call %s returned %r, the function returns %r'
+                                   % (show_op(op), val, exp))
+            if nev > 1:
+                raise Mismatch('double-evaluation', 'second instance: call %s evaluated the function %d times'
+                               % (show_op(op), nev))
+            if prop == 'C02' and nev and (gkey in gmem or (garch is not None and gkey in garch)):
+                raise Mismatch('needless-evaluation', 'second instance on the same archive: call %s evaluated the '
+                               'function although key %s was %s' % (show_op(op), show(gkey),
+                                                                     'resident' if gkey in gmem else 'in the shared archive'))
+            if nev == 0 and garch is not None and gkey not in gmem and gkey in garch:
+                bump(probes, 'second-instance-served-from-shared-archive')
+            orc.evalcount.clear()        # the strict once-only count is per instance
+            before = w.observe()         # the shared archive may have changed
+            trace.append((step, before, 'peer', val))
             continue
         if kind in ('key', 'lookup'):
             args, kw = _decode_call(op)
@@ -985,6 +1085,7 @@ def run_world(case, prop, root, name, skip, fs, clock, probes, faults, log):
                 f.dump()
             del f, c
             w.f = None
+            w.g = None
             w.build()
             orc.stats = [0, 0, 0]
             orc.reset_usage()
